@@ -1,6 +1,6 @@
 (* Proofs/CarriedProofs.v - theorems about state carried across exchanges (Model/Carried.v). *)
 From Coq Require Import List Arith Bool Lia.
-From ReqV Require Import Lib.Bytes Model.Pool Model.Carried.
+From ReqV Require Import Lib.Bytes Model.Pool Model.Carried Model.H2Pool.
 Import ListNotations.
 
 (* ---------- 1. Expect: 100-continue / request framing ---------- *)
@@ -187,3 +187,65 @@ Theorem async_alias_refuted :
   let evs := [QWrite 0 (bs "first"); QDump 0; QWrite 0 (bs "SECND"); QDump 0; QDrain; QDrain] in
   q_final evs = [bs "first"; bs "SECND"] /\ qa_final evs = [bs "SECND"; bs "SECND"].
 Proof. vm_compute. split; reflexivity. Qed.
+
+(* ---------- 4. (round 5) the pool key ---------- *)
+
+(* two connect methods with the same pool key, one of which is a socket tied to one origin
+   (direct, socks5, CONNECT tunnel), address the same origin: a tunnel is never filed under a
+   key that a request for another origin looks up *)
+Theorem cm_key_separates_tunnels : forall a b,
+  cm_key a = cm_key b -> socket_bound_to_target a = true -> cm_target a = cm_target b.
+Proof.
+  intros [pa ia ha ta oa] [pb ib hb tb ob]. unfold cm_key, socket_bound_to_target. simpl.
+  intros H Hs. inversion H; subst. clear H.
+  destruct pb; simpl in *; try (destruct hb; simpl in *); try discriminate; congruence.
+Qed.
+
+(* plain http through an http(s) proxy: the socket (to the proxy) serves every origin - and
+   only there the target is left out of the key *)
+Theorem cm_key_shares_only_proxy_sockets : forall a b,
+  cm_key a = cm_key b -> cm_target a <> cm_target b ->
+  socket_bound_to_target a = false /\ socket_bound_to_target b = false.
+Proof.
+  intros a b H Hne. split.
+  - destruct (socket_bound_to_target a) eqn:E; auto. exfalso. apply Hne. apply cm_key_separates_tunnels; auto.
+  - destruct (socket_bound_to_target b) eqn:E; auto. exfalso. apply Hne. symmetry.
+    apply cm_key_separates_tunnels; auto.
+Qed.
+
+Theorem cm_key_shared_refuted :
+  let a := mkCM PHttp 1 true 10 true in let b := mkCM PHttp 1 true 20 true in
+  cm_key_shared a = cm_key_shared b /\ socket_bound_to_target a = true /\ cm_target a <> cm_target b /\
+  cm_key a <> cm_key b.
+Proof. simpl. repeat split; discriminate. Qed.
+
+(* ---------- 5. (round 5) a shared dial ---------- *)
+
+(* a request that joined another request's dial is not failed by that request's context: it
+   goes back to GetClientConn's scan (and dials for itself) *)
+Theorem waiter_survives_owner_context : forall s r k cl e,
+  r_phase s r = RWaitDial k cl -> call_res s cl = Some None ->
+  e = DErrCanceled \/ e = DErrDeadline ->
+  r_phase (h2_step s (H2Wake r (should_retry_dial false e true))) r = RScan k.
+Proof.
+  intros s r k cl e Hp Hc He. simpl. rewrite Hp, Hc.
+  destruct He; subst e; simpl; unfold upd; rewrite Nat.eqb_refl; reflexivity.
+Qed.
+
+(* ... while the request whose context it was, and everybody when the dial failed for a reason
+   of its own, gets the error *)
+Theorem dial_error_goes_to_its_owner : forall s r k cl e done,
+  r_phase s r = RWaitDial k cl -> call_res s cl = Some None -> e <> DErrNone ->
+  r_phase (h2_step s (H2Wake r (should_retry_dial true e done))) r = RDone false /\
+  r_phase (h2_step s (H2Wake r (should_retry_dial false DErrOther done))) r = RDone false.
+Proof.
+  intros s r k cl e done Hp Hc He. simpl. rewrite Hp, Hc.
+  split; [destruct e; try congruence|]; simpl; unfold upd; rewrite Nat.eqb_refl; reflexivity.
+Qed.
+
+Theorem retry_without_deadline_refuted : forall s r k cl,
+  r_phase s r = RWaitDial k cl -> call_res s cl = Some None ->
+  r_phase (h2_step s (H2Wake r (should_retry_dial_no_deadline false DErrDeadline true))) r = RDone false.
+Proof.
+  intros s r k cl Hp Hc. simpl. rewrite Hp, Hc. simpl. unfold upd. rewrite Nat.eqb_refl. reflexivity.
+Qed.
